@@ -611,6 +611,26 @@ func (m *machine) step() {
 			m.cur = curOp{op: op, alloc: a, from: p.From, wasOpen: a.open}
 			m.do(w.UpdateAllocation(p))
 		}
+	case "blobberSettings2":
+		// delegate limit, prices and service charge of a blobber change while it serves allocations and holds delegates
+		b := w.Blobbers[rapid.IntRange(0, len(w.Blobbers)-1).Draw(t, "blobber")]
+		u := simstorage.BlobberUpdate{}
+		switch rapid.IntRange(0, 3).Draw(t, "setting") {
+		case 0:
+			n := rapid.SampledFrom([]int{2, 1, 3, 10}).Draw(t, "numDelegates")
+			u.NumDelegates = &n
+		case 1:
+			wp := currency.Coin(rapid.SampledFrom([]uint64{zcn / 10, zcn / 5, zcn / 20, zcn}).Draw(t, "writePrice"))
+			u.WritePrice = &wp
+		case 2:
+			rp := currency.Coin(rapid.SampledFrom([]uint64{zcn / 100, zcn / 50, 0, zcn / 10}).Draw(t, "readPrice"))
+			u.ReadPrice = &rp
+		default:
+			sc := rapid.SampledFrom([]float64{0.1, 0, 0.3, 0.05}).Draw(t, "serviceCharge")
+			u.ServiceCharge = &sc
+		}
+		m.cur = curOp{op: op, provider: b, from: b.Delegate}
+		m.do(w.UpdateBlobberSettings(b.Delegate, b, u))
 	case "blockRewards2":
 		// move to the next round at which the contract pays block rewards, then trigger them
 		period := int64(30)
